@@ -204,6 +204,10 @@ func negotiator(f func(*Session, *StreamConfig) StreamConfig) Negotiator {
 					// checking that). However, some servers don't send a "to" at all in
 					// violation of the spec. See: https://issues.prosody.im/1625
 					return mask, nil, nState, fmt.Errorf("xmpp: stream origin %s does not match previously set origin %s", s.in.Info.To, origin)
+				case s.in.Info.To.Equal(jid.JID{}):
+					// A missing or empty "to" is tolerated, but it must not wipe out
+					// the address we already have.
+					s.in.Info.To = origin
 				}
 			}
 		}
